@@ -82,6 +82,8 @@ class AggModel(RDFModel):
         return SV(TERM, eval_of(e, r))
 
     def getattr(self, it, obj, name, node):
+        if isinstance(obj, SV) and isinstance(obj.ty, TObj) and obj.ty.cls in ("Sum", "Average") and name == "get_value":
+            return BoundMethod(obj, name, lambda it2, o, a, k: SV(TERM, z3.Const(it2.path.fresh_name("aggregate_value"), TermSort)))
         if isinstance(obj, SV) and obj.ty.sort() == TermSort and name == "datatype":
             return SV(INT, dt_of(obj.z))
         if isinstance(obj, SV) and isinstance(obj.ty, TObj) and name == "compare":
@@ -164,6 +166,24 @@ class AggModel(RDFModel):
                           modifies=[("Average", "sum"), ("Average", "counter"), ("Average", "datatype"), ("Average", "error"), TSet(TERM)],
                           note="AVG step: sum and counter advance together, only for rows whose expression is a number; a "
                                "type error sets the error flag (the group's average is then unbound)"))
+
+        # ---- set_value: what a finished group contributes to its solution
+        BIND = TDict(TERM, TERM)
+        for cls in ("Sum", "Average"):
+            declare_class(cls, fields={"var": TERM})
+
+            def sv_post(c, cls=cls):
+                st0, st1, s = c.old, c.new, c.self.z
+                b0, b1 = st0.content(BIND, c.args["bindings"].z), st1.content(BIND, c.args["bindings"].z)
+                var = F(st0, cls, "var", s)
+                k = z3.Const("sv_k", TermSort)
+                return [("an-aggregate-in-error-stays-unbound", z3.Implies(F(st0, cls, "error", s), b1 == b0)),
+                        ("otherwise-exactly-its-variable-is-bound", z3.Implies(z3.Not(F(st0, cls, "error", s)), z3.And(
+                            OT.is_some(b1[var]), z3.ForAll([k], z3.Implies(k != var, b1[k] == b0[k])))))]
+            self.add(Contract("C08", REL, f"{cls}.set_value", [Param("bindings", BIND)], self_ty=TObj(cls),
+                              pre=lambda c: z3.And(c.self.z > 0, c.args["bindings"].z > 0), post=sv_post, modifies=[BIND],
+                              note=f"{cls}.set_value: binds the result variable unless a member of the group was not a number"))
+
 
 def build():
     return AggModel()
